@@ -1025,20 +1025,30 @@ func c20gMixRound(run *common.Run, ch *c20gChild, round int) string {
 			return cl.GetMeta(mb, "y")
 		})
 	case 0: // listing while uploading and deleting
-		worker(func(cl *drive.Client, n int) *drive.Resp { return cl.List(mb, [][2]string{{"delimiter", "/"}, {"maxResults", "3"}}) })
+		worker(func(cl *drive.Client, n int) *drive.Resp {
+			return cl.List(mb, [][2]string{{"delimiter", "/"}, {"maxResults", "3"}})
+		})
 		worker(func(cl *drive.Client, n int) *drive.Resp { return cl.List(mb, [][2]string{{"prefix", "d/"}}) })
 		worker(func(cl *drive.Client, n int) *drive.Resp {
 			return cl.UploadMedia(mb, fmt.Sprintf("d/%d/f%d.txt", n%3, n%7), "text/plain", []byte("x"), false, nil)
 		})
-		worker(func(cl *drive.Client, n int) *drive.Resp { return cl.Delete(mb, fmt.Sprintf("d/%d/f%d.txt", n%3, n%7), nil) })
+		worker(func(cl *drive.Client, n int) *drive.Resp {
+			return cl.Delete(mb, fmt.Sprintf("d/%d/f%d.txt", n%3, n%7), nil)
+		})
 	case 1: // same-name uploads, patches, deletes, reads
-		worker(func(cl *drive.Client, n int) *drive.Resp { return cl.UploadMedia(mb, "same", "text/plain", []byte(fmt.Sprint("v", n)), false, nil) })
-		worker(func(cl *drive.Client, n int) *drive.Resp { return cl.Patch(mb, "same", []byte(`{"metadata":{"k":"v"}}`), nil) })
+		worker(func(cl *drive.Client, n int) *drive.Resp {
+			return cl.UploadMedia(mb, "same", "text/plain", []byte(fmt.Sprint("v", n)), false, nil)
+		})
+		worker(func(cl *drive.Client, n int) *drive.Resp {
+			return cl.Patch(mb, "same", []byte(`{"metadata":{"k":"v"}}`), nil)
+		})
 		worker(func(cl *drive.Client, n int) *drive.Resp { return cl.Delete(mb, "same", nil) })
 		worker(func(cl *drive.Client, n int) *drive.Resp { return cl.GetMedia(n%3, mb, "same") })
 		worker(func(cl *drive.Client, n int) *drive.Resp { return cl.GetMeta(mb, "same") })
 	case 2: // bucket delete during uploads; compose and copy
-		worker(func(cl *drive.Client, n int) *drive.Resp { return cl.UploadMedia(mb, fmt.Sprint("u", n%4), "text/plain", []byte("x"), false, nil) })
+		worker(func(cl *drive.Client, n int) *drive.Resp {
+			return cl.UploadMedia(mb, fmt.Sprint("u", n%4), "text/plain", []byte("x"), false, nil)
+		})
 		worker(func(cl *drive.Client, n int) *drive.Resp {
 			r := cl.Do("DELETE", drive.BucketPath(mb), nil, nil)
 			cl.CreateBucket(mb)
